@@ -1,6 +1,7 @@
 package main
 
 import (
+	"context"
 	"encoding/json"
 	"fmt"
 	"reflect"
@@ -33,6 +34,7 @@ func (m *tlaMap) UnmarshalJSON(b []byte) error {
 type c10Event struct {
 	Op string `json:"op"`
 	D  tlaMap `json:"d"`
+	W  tlaMap `json:"w"`
 	C  int    `json:"c"`
 	K  string `json:"k"`
 	V  string `json:"v"`
@@ -93,7 +95,16 @@ func c10Replay(cs *c10Case) (sig, msg string) {
 					d[k] = c10Val(v)
 				}
 			}
-			ctxs = append(ctxs, plush.NewContextWith(d))
+			if len(e.W) > 0 {
+				// a root built around a context.Context that carries values
+				var gc context.Context = context.Background()
+				for k, v := range e.W {
+					gc = context.WithValue(gc, k, c10Val(v))
+				}
+				ctxs = append(ctxs, plush.NewContextWithContext(gc))
+			} else {
+				ctxs = append(ctxs, plush.NewContextWith(d))
+			}
 		case "new":
 			ctxs = append(ctxs, ctxs[e.C-1].New().(*plush.Context))
 		case "set":
